@@ -403,7 +403,7 @@ def run_check(check, tier="quick", seed=0, replay_only=None):
         irpath, dump_s, dump_msg = run_vdump(check, fns, workdir)
         if os.environ.get("VERIF_VERBOSE"):
             print("  vdump %.1fs: %s" % (dump_s, dump_msg))
-        tmo = check.get("timeout_ms", {}).get(tier, 120000 if tier == "quick" else 900000)
+        tmo = check.get("timeout_ms", {}).get(tier, 300000 if tier == "quick" else 1800000)
         jobs = []
         expanded = []
         import itertools
